@@ -18,9 +18,10 @@ PROVED = ("for ALL byte strings: read b = ok (m,n) -> m is well-formed (Spec.WF)
           "read (write m ++ junk) = ok (m, |write m|) (every field), hence round trip and byte stability for every accepted input; "
           "trailing bytes ignored (Local); each edit changes exactly the named tile field / the source list and preserves "
           "well-formedness (SetVersionTag for v >= MinMapVersion; below it the reader refuses the written file), so the round trip "
-          "holds after every finite edit sequence; the writer refuses containers whose size does not fit its 32-bit prefix")
-PARTIAL = ("C06_bytes (written bytes = consumed bytes up to the two normalised words) is stated in full and proved as "
-           "C06_bytes; see notes/map.md for anything named _partial. Allocation failure for attacker-sized tables is not modelled.")
+          "holds after every finite edit sequence; written bytes = consumed bytes with the saved-game word set to 0/1 and the word after "
+          "the group count set to count-1 (C06_bytes, C06_bytes_normalise); the writer refuses containers that do not fit a 32-bit prefix")
+PARTIAL = ("nothing is named _partial. Not covered by the theorems: allocation failure for attacker-sized tables (runtime), edits at "
+           "coordinates outside the map (a Fault in the model; C16 owns addressing), Map()'s width 0 (not a reader result)")
 TRUSTED = ["std::vector::resize value-initialises (numTiles of an empty-named source is 0)"]
 # symbolize=0: an ASan abort on an attacker-sized allocation otherwise spends 0.1 s per case in the symbolizer
 ENV = {"ASAN_OPTIONS": "detect_leaks=0:allocator_may_return_null=0:max_allocation_size_mb=1024:symbolize=0"}
